@@ -82,6 +82,9 @@ Section Chunk.
   Lemma store_ext_weaken : forall w i s s', store_ext w (S i) s s' -> store_ext w i s s'.
   Proof. intros w i s s' (H1 & H2 & H3). repeat split; auto. Qed.
 
+  Lemma store_ext_weaken0 : forall w i s s', store_ext w i s s' -> store_ext w 0 s s'.
+  Proof. intros w i s s' (H1 & H2 & H3). split; auto. split; auto. intros j Hj. lia. Qed.
+
   Lemma cc_walk_len0 : forall fs i st off w cpos acc,
     cc_walk fs i st off 0 w cpos acc = COk st (rev acc).
   Proof. destruct fs; reflexivity. Qed.
@@ -254,17 +257,18 @@ Section Chunk.
     intros store off len w Hlen. unfold create_chunk.
     destruct (N.ltb_spec (c_tot c) (off + len)) as [Hout|Hin]; [exact Hout|].
     destruct (N.eq_dec len 0) as [->|Hne].
-    { rewrite cc_walk_len0. simpl. repeat split; auto. }
+    { rewrite cc_walk_len0. simpl. split; [lia|]. split; [apply store_ext_refl|auto]. }
     rewrite <- Hfiles.
     destruct (find_start_ok files O 0 (c_tot c) off Hlaid ltac:(lia) ltac:(lia) ltac:(auto))
       as (a' & L1 & L2 & L3 & L4).
     pose proof (cc_walk_ok (fst (find_start files 0 off)) (snd (find_start files 0 off)) store off len w 0 []
                            a' (c_tot c) off L1 L2 ltac:(right; exact L3) Hin L4 ltac:(lia) Hlen) as W.
     destruct (cc_walk _ _ store off len w 0 []) as [|st|st ps]; [contradiction| |].
-    - destruct W as [(W1 & W2 & W3) W4]. repeat split; auto. intros j Hj; lia.
-    - destruct W as (ps' & E1 & E2 & E3 & E4 & (W1 & W2 & W3) & E6). simpl in E1. subst ps'.
+    - destruct W as [W1 W4]. split; [lia|]. split; auto. eapply store_ext_weaken0; eauto.
+    - destruct W as (ps' & E1 & E2 & E3 & E4 & W1 & E6). simpl in E1. subst ps'.
       destruct ps as [|p ps]; [simpl in E3; lia|].
-      repeat split; auto; try lia. intros j Hj; lia.
+      split; [lia|]. split; [lia|]. split; [auto|]. split; [auto|]. split; [auto|].
+      split; [eapply store_ext_weaken0; eauto|].
       eapply Forall_impl; [|exact E6]. intros q [_ Q]. exact Q.
   Qed.
 
@@ -318,6 +322,6 @@ Section Chunk.
       exists p. split; auto. split; [lia|]. split.
       + rewrite Forall_forall in H5. destruct (H5 p P1) as (f & F1 & F2 & F3 & F4 & F5).
         exists f. repeat split; auto; lia.
-      + intros q Hq Kq. eapply contig_unique; eauto. lia.
+      + intros q Hq Kq. eapply contig_unique; eauto.
   Qed.
 End Chunk.
